@@ -110,10 +110,11 @@ func c18Exec(c evCase, x *pbt.Ctx) error {
 						continue
 					}
 					seen[id] = true
-					if !w.IsAncestor(fin, va.tgt) || !w.IsAncestor(fin, vb.tgt) {
-						// known finding: the slashing conditions are only checked against votes whose
-						// target is still in the checkpoint tree (descends from the last finalized
-						// checkpoint); a vote on an abandoned branch is forgotten
+					if !double && (!w.IsAncestor(fin, va.tgt) || !w.IsAncestor(fin, vb.tgt)) {
+						// known finding: the span condition is only checked against votes whose target is
+						// still in the checkpoint tree (descends from the last finalized checkpoint); a
+						// vote on an abandoned branch is forgotten.  The same-height condition is checked
+						// against the stored checkpoints of that height and has no such gap.
 						x.Known("slashing-check-ignores-abandoned-branches")
 						continue
 					}
